@@ -73,6 +73,36 @@ def run(mod, tier, seed):
                         line_failures.append((i, 'diagnostic %s carries line %s, but the problem is detected at the token on line %s '
                                                  '(position of the last token taken: theorem C06_diagnostic_position)' % dl))
     t_corr = time.time() - t1
+    # the executable side of the round-trip theorem (Run/RunRT.v): on every block of every loaded document that meets the
+    # theorem's condition, tokenizer(writer(block)) = wtoks(block) (the half that is not proved) and the theorem's conclusion
+    rt_info, rt_bad = None, []
+    if model_exe and getattr(mod, 'ROUNDTRIP_STAGE', False):
+        try:
+            ok_r, log_r = fw.coq_make(['theories/Run/RunRT.v'])
+            if not ok_r:
+                raise fw.CheckFailure('RunRT does not compile:\n' + log_r[-1500:])
+            rt_exe = fw.build_model('RT')
+            _, mlines = loadlib.run_model(tuples, res, '/bin/true') if False else (None, None)
+            mlines = [sx.enc([t, 1 if s_ else 0, [sp] if sp else [], 0, r.ftab if r.ftab is not None else []])
+                      for (t, s_, sp, cyc), r in zip(tuples, res)]
+            rout = fw.run_sharded([rt_exe], mlines)
+            tot = {'documents': 0, 'blocks': 0, 'conforming_blocks': 0, 'lexical_mismatches': 0, 'statement_mismatches': 0}
+            for i, line in enumerate(rout):
+                if not line or line.startswith('DIED'):
+                    continue
+                a = sx.dec(line)
+                if a and a[0] == b'OK':
+                    tot['documents'] += 1
+                    tot['blocks'] += a[1]
+                    tot['conforming_blocks'] += a[2]
+                    tot['lexical_mismatches'] += a[3]
+                    tot['statement_mismatches'] += a[4]
+                    if a[3] or a[4]:
+                        rt_bad.append((i, 'lexical %d, statement %d, first in %s' % (a[3], a[4], [x.decode() for x in a[5]])))
+            rt_info = tot
+        except fw.CheckFailure as e:
+            rt_info = {'error': str(e)[:500]}
+            rt_bad.append((0, 'round-trip evaluation could not be built: ' + str(e)[:300]))
     failures = []
     for i, c in enumerate(cases):
         why = mod.oracle(c, res[i], cases, res)
@@ -93,6 +123,7 @@ def run(mod, tier, seed):
         'traces_validated_against_impl': len(cases) - len(mism) if model_exe else 0,
         'correspondence_mismatches': len(mism), 'oracle_failures': len(failures),
         'correspondence_wall_s': round(t_corr, 1),
+        'roundtrip_theorem_evaluation': rt_info,
         'input_distribution': dict(status=status, **(mod.distribution(cases, res) if hasattr(mod, 'distribution') else {})),
         'trusted_base': list(getattr(mod, 'TRUSTED_BASE', [])) + [
             'translators tools/spec_from_generated.py (token-pattern recogniser of the generated code, fails on anything it cannot account for) and harness/specdump (the repository\'s own DSL parser linked as ordinary code)',
@@ -138,6 +169,12 @@ def run(mod, tier, seed):
                                   'forbidden_constructs': p_info.get('forbidden'), 'log_tail': p_info.get('log', '')}, no_input=True)
         if model_err:
             v.violation('model', {'stage': 'C', 'broken': 'model build', 'detail': model_err}, no_input=True)
+        elif rt_bad and not mism:
+            i, d = rt_bad[0]
+            v.violation('correspondence', {'stage': 'C', 'broken': 'the tie of theorem C01_parser_rebuilds_what_the_writer_emits to the writer: on a block that '
+                                           'meets the condition the tokenizer does not cut the written text into wtoks, or the conclusion does not evaluate to true '
+                                           '(%d documents)' % len(rt_bad), 'first_difference': d, 'kind': 'LOAD',
+                                           'text': cases[i]['text'] if i < len(cases) else None}, no_input=True)
         elif mism:
             i, d = mism[0]
             v.violation('correspondence', {'stage': 'C', 'broken': 'correspondence of the parser/writer model with the implementation (%d of %d cases differ)' % (len(mism), len(cases)),
